@@ -10,19 +10,21 @@
      notification (Notify.tla)                                events of a write / local change
      lifecycle (Lifecycle.tla)                                Stop / Start    connections and subscriptions vanish, pairings stay
      discoverability                                          sf = 1 iff no controller is stored
+     overlapping requests of two connections                  RemoveDuringVerify(k, c, k2)   a pairing removed while its key is looked up
 
    Deliberate deviation of the code from HAP, named: when a pairing is removed, sessions already verified with it stay
    verified (HAP requires them to be torn down).  Guard "sessions_of_removed_pairing_closed" is therefore in CodeWeak; no
    listed property speaks about it.  A guard in Weak is MISSING. *)
 EXTENDS Naturals, Sequences, FiniteSets, TLC
 CONSTANTS Conn, Ctrl, Weak
-VARIABLES running, paired, who, subs, val, sf, got, last, done
-vars == <<running, paired, who, subs, val, sf, got, last, done>>
+VARIABLES running, paired, who, subs, val, sf, got, last, done,
+          memo     \* controllers whose key a lookup has kept although the store was changed since (empty in the intended design)
+vars == <<running, paired, who, subs, val, sf, got, last, done, memo>>
 Guard(g) == g \notin Weak
 None == "none"
 
 Init == /\ running = TRUE /\ paired = {} /\ who = [k \in Conn |-> None]      \* who[k]: the controller connection k is verified as
-        /\ subs = {} /\ val = 0 /\ sf = 1 /\ got = {} /\ last = <<"init", None, None, None>> /\ done = {}
+        /\ subs = {} /\ val = 0 /\ sf = 1 /\ got = {} /\ last = <<"init", None, None, None>> /\ done = {} /\ memo = {}
 Quiet == got' = {}
 Verified(k) == who[k] # None
 
@@ -39,7 +41,7 @@ Pair(k, c) == /\ running /\ ~Verified(k)
 \* pair-verify as controller c (its message-level machine is Access.tla), on a plaintext connection or again inside a
 \* session (the hand-over is HonestRun.tla's V3V4): a refusal leaves the connection as it was, subscriptions stay
 Verify(k, c) == /\ running
-                /\ LET ok == c \in paired \/ ~Guard("verify_needs_stored_key") IN
+                /\ LET ok == c \in paired \/ c \in memo \/ ~Guard("verify_needs_stored_key") IN
                    /\ who' = [who EXCEPT ![k] = IF ok THEN c ELSE @]
                    /\ last' = <<"Verify", k, c, IF ok THEN "ok" ELSE "refused">>
                 /\ Quiet /\ UNCHANGED <<running, paired, subs, val, sf, done>>
@@ -94,20 +96,39 @@ Start == /\ ~running /\ running' = TRUE /\ val' = 0
          /\ sf' = IF paired = {} \/ ~Guard("sf_from_pairings") THEN 1 ELSE 0
          /\ Quiet /\ last' = <<"Start", None, None, None>> /\ UNCHANGED <<paired, who, subs, done>>
 
-Next == \/ \E k \in Conn, c \in Ctrl : Pair(k, c) \/ Verify(k, c) \/ RemovePairing(k, c) \/ AddPairing(k, c)
-        \/ \E k \in Conn : Read(k) \/ Sub(k) \/ Unsub(k) \/ Close(k) \/ \E v \in {0, 1} : Write(k, v)
-        \/ \E v \in {0, 1} : LocalSet(v)
-        \/ Stop \/ Start
+\* A pairing is removed while another connection runs pair-verify as that controller: the lookup of the key and the removal
+\* overlap (linearised: the verification first, the store still holds the key).  Intended design (guard
+\* lookup_reads_the_store): whoever needs a key reads the store, so nothing of the overlap outlives it.  Without the guard the
+\* overlapping lookup leaves its result behind (a memo that was invalidated BEFORE the store was written) and later lookups
+\* trust it - until the accessory is started again.  last[5] is the connection that verifies.
+RemoveDuringVerify(k, c, k2) ==
+  /\ running /\ k # k2 /\ Gate(k) /\ c \in paired
+  /\ paired' = paired \ {c}
+  /\ sf' = IF paired' = {} /\ Guard("sf_updated_on_unpair") THEN 1 ELSE sf
+  /\ LET who1 == [who EXCEPT ![k2] = c] IN
+     /\ who' = IF Guard("sessions_of_removed_pairing_closed") THEN [x \in Conn |-> IF who1[x] = c THEN None ELSE who1[x]] ELSE who1
+     /\ subs' = IF Guard("sessions_of_removed_pairing_closed") THEN {x \in subs : who1[x] # c} ELSE subs
+  /\ memo' = IF Guard("lookup_reads_the_store") THEN memo ELSE memo \cup {c}
+  /\ last' = <<"RemoveDuring", k, c, "ok", k2>>
+  /\ Quiet /\ UNCHANGED <<running, val, done>>
+
+Plain == \/ \E k \in Conn, c \in Ctrl : Pair(k, c) \/ Verify(k, c) \/ RemovePairing(k, c) \/ AddPairing(k, c)
+         \/ \E k \in Conn : (Read(k) \/ Sub(k) \/ Unsub(k) \/ Close(k) \/ \E v \in {0, 1} : Write(k, v))
+         \/ \E v \in {0, 1} : LocalSet(v)
+         \/ Start
+Next == \/ (Plain /\ UNCHANGED memo)
+        \/ (Stop /\ memo' = {})
+        \/ \E k, k2 \in Conn, c \in Ctrl : RemoveDuringVerify(k, c, k2)
 Spec == Init /\ [][Next]_vars
 
 \* ---- end-to-end properties (each is the composition-level face of a listed property)
 VerifiedMeansStoredOnce ==                                                   \* C03
   [][ (last'[1] = "Verify" /\ last'[4] = "ok") => last'[3] \in paired ]_vars
 GatedOps ==                                                                   \* C01
-  [][ (last'[1] \in {"Read", "Sub", "Unsub", "Write", "Remove", "Add"} /\ last'[4] = "ok") => Verified(last'[2]) ]_vars
+  [][ (last'[1] \in {"Read", "Sub", "Unsub", "Write", "Remove", "Add", "RemoveDuring"} /\ last'[4] = "ok") => Verified(last'[2]) ]_vars
 EventsToSubscribedOthers ==                                                   \* C10
   [][ got' \subseteq {k \in Conn : Verified(k) /\ k \in subs /\ k # last'[2]} ]_vars
 Discoverable == running => (sf = 1 <=> paired = {})                           \* C20
 RestartKeepsPairings == [][ last'[1] \in {"Stop", "Start"} => paired' = paired ]_vars   \* C20
-View == <<running, paired, who, subs, val, sf, done>>
+View == <<running, paired, who, subs, val, sf, done, memo>>
 =======================================================================
